@@ -39,6 +39,11 @@ theorem step_regular_inv (s : LState) (e : Ev) (he : e.regular = true) (hl : 0 <
     repeat' split
     all_goals simp_all [LState.total]
     omega
+  | subPoll ch =>
+    simp only [step]
+    repeat' split
+    all_goals simp_all [LState.total]
+    omega
   | complete ch gen ok =>
     simp only [step]
     repeat' split
@@ -88,10 +93,11 @@ example :
       .complete 2 2 false, .subReg 3 2, .complete 3 3 true]).clientSubs = 2 := by decide
 
 /-- the `(limit+1)`-th attempt: with `limit` subscriptions/reservations held, a client subscribe to a
-further channel is answered `ErrorLimitExceeded` (regular and map alike) and changes nothing -/
+further channel is answered `ErrorLimitExceeded` (regular, map and shared-poll alike) and changes nothing -/
 theorem limit_plus_one_rejected (s : LState) (ch len : Nat) (hl : 0 < s.limit) (hfull : s.limit ≤ s.total)
     (hlen : ¬ (0 < s.maxLen ∧ s.maxLen < len)) (hnew : s.inChannels ch = false ∧ s.inMap ch = false) :
-    step s (.subReg ch len) = (s, .limitExceeded) ∧ step s (.subMapValidate ch len) = (s, .limitExceeded) := by
+    step s (.subReg ch len) = (s, .limitExceeded) ∧ step s (.subMapValidate ch len) = (s, .limitExceeded) ∧
+      step s (.subPoll ch) = (s, .limitExceeded) := by
   simp [step, hlen, hnew.1, hnew.2, hl, hfull]
 
 /-- a server-side subscribe on a connection that already has `limit` entries in `c.channels` closes the
@@ -168,6 +174,17 @@ theorem step_client_inv (s : LState) (e : Ev) (hl : 0 < s.limit) (ht : s.clientE
           simp only [LState.clientEntries, List.filter_append, List.length_append, List.filter_cons,
             List.filter_nil, Entry.isClient, if_true, List.length_cons, List.length_nil] at ht hct ⊢
           omega
+  | subPoll ch =>
+    simp only [step]
+    split
+    · exact ht
+    · split
+      · exact ht
+      · rename_i hfull
+        have hlt : s.total < s.limit := by omega
+        simp only [LState.clientEntries, List.filter_append, List.length_append, List.filter_cons,
+          List.filter_nil, Entry.isClient, if_true, List.length_cons, List.length_nil] at ht hct ⊢
+        omega
   | subMapValidate ch len =>
     simp only [step]
     repeat' split
@@ -273,6 +290,12 @@ theorem channel_limit_former_counterexample_fixed :
 example :
     (run { limit := 2, maxLen := 0 } [.subMapValidate 4 2, .subReg 1 2, .subMapValidate 5 2, .mapReserve 4,
       .mapReserve 5, .complete 1 1 true, .mapCommit 4 2]).clientSubs = 2 := by decide
+
+/-- a shared-poll subscribe while a map subscription is still paginating and the connection is at its
+limit is refused (the in-flight map reservation counts) -/
+example :
+    (step (run { limit := 1, maxLen := 0 } [.subMapValidate 1 2, .mapReserve 1]) (.subPoll 201)).2 = .limitExceeded := by
+  decide
 
 /-- examined, not a finding: server-side `Client.Subscribe` compares `len(c.channels)` alone with the
 limit, so a map subscription that is still loading (entry in `mapSubscribing`) is not counted and the
